@@ -137,6 +137,41 @@ CHECKS = {
         note="Trusted: as C08; baked schema, parse cache and parsed documents are assumed read-only by the model (checked by "
              "fingerprint and by the afterwards-runs).",
         design="4 C15"),
+    "C06": dict(
+        technique="Coq theorems on the implementation model of the validation walk (rule soundness) + specification "
+                  "verdict evaluated in Coq on valid-by-construction documents run through the real engine",
+        text="Model/ImplValidate.v transcribes the walk of transformers.py (shared mutable context, 26 rules, abort flag, "
+             "rules that raise); Model/SpecValidate.v states the 25 supported rules after the specification (type-scoped "
+             "recursion, independent of the walk). Proved for all schemas/documents: an acyclic fragment graph (sharing, "
+             "repeated spreads, any definition order; fuel shown sufficient) is never reported as a cycle; the six uniqueness "
+             "rules report nothing on distinct names (iff); an accepted document is handed to the executor unchanged. The check "
+             "generates structured valid documents (fragment DAGs with sharing, several named operations reaching shared "
+             "fragments by different routes, variables only inside fragments, directives in all 7 executable locations, "
+             "meta-fields and introspection selections, identical repeated fields, one-key subscriptions) on generated schemas; "
+             "inside Coq every document must satisfy all 25 specification predicates (else the generator is at fault) and the "
+             "implementation model's error set must equal the engine's; the engine must not answer with any rule-tagged or "
+             "generic validation error. PARTIAL: spec_valid -> accepted for all rules together is decided per document, not "
+             "proved.",
+        note="Trusted: Coq kernel, generators, parser stand-in (which texts parse, locations), scalar translator for literal "
+             "leaves. Field-selection-merging (5.3.2) is not implemented by the engine; generated documents satisfy it by "
+             "construction.",
+        design="4 C06"),
+    "C07": dict(
+        technique="Coq theorems (refusal runs nothing; completeness of the uniqueness rules) + catalogue of violation-injecting "
+                  "rewrites judged by the specification model in Coq and run through the real engine with call counters",
+        text="Proved for every schema, document, user code, configuration: when the validation walk reports an error or a rule "
+             "raises, the response has data:null, non-empty errors and the executor is not reached (no user code); a repeated "
+             "operation / fragment / variable / argument / directive / input-field name is always reported. The check applies "
+             "~45 rewrite operators (one or more per supported rule: operation level, nested selections, inside fragments, "
+             "directive arguments, nested input values, variable defaults, second subscription operation, back edges closing "
+             "fragment cycles through nested selections, impossible inline and named spreads, wrong declared variable types) at "
+             "the applicable nodes of valid documents; the specification model (evaluated in Coq) says which rules each rewritten "
+             "document breaks; when it breaks one, the engine must refuse and no resolver, type resolver or directive hook may "
+             "have run; the implementation model must report the engine's error set (tags, paths, locations for 19 rules). Two "
+             "recorded findings (known_findings.json) are attributed by Coq-evaluated region predicates. PARTIAL: completeness "
+             "of the other rules at every site is decided per document, not proved.",
+        note="Trusted: as C06. Documents with non-executable definitions are outside the document model (engine side only).",
+        design="4 C07"),
     "C14": dict(
         technique="Coq theorems on the model of Engine.subscribe + event-by-event correspondence on the real engine",
         text="Proved for every finite event sequence of the source: the responses are exactly the map of "
